@@ -68,7 +68,9 @@ def instances(cfg):
         inst = ["two_channels", "three_channels"]
     elif mal in ("no_drift", "no_diffusion", "logqp_no_h"):
         inst = ["absent", "misnamed"]
-    elif mal in ("ts_requires_grad", "dt_requires_grad"):
+    elif mal == "ts_requires_grad":
+        inst = ["leaf", "nonleaf", "list_0d_grad"]
+    elif mal == "dt_requires_grad":
         inst = ["leaf", "nonleaf"]
     elif mal == "ts_wrong_type":
         inst = ["numpy", "list_of_str", "tuple_of_tensors"]
@@ -291,6 +293,9 @@ def build(cfg, inst, badkind, seed):
     elif mal == "ts_requires_grad":
         if inst == "leaf":
             ts = ts.clone().requires_grad_(True)
+        elif inst == "list_0d_grad":          # a learnable end time inside a Python list of 0-d tensors
+            ts = [torch.tensor(t, dtype=torch.float64) for t in TS[:-1]] + \
+                 [torch.tensor(TS[-1], dtype=torch.float64, requires_grad=True)]
         else:
             ts = torch.tensor(TS, dtype=torch.float64, requires_grad=True) * 1.0
     dt = DT
